@@ -1324,6 +1324,9 @@ func (p *parser) scanBackslash(scanOnly bool) (*RegexNode, error) {
 	case 'W':
 		p.moveRight(1)
 		if p.useOptionE() || p.useRE2() {
+			if p.useOptionI() {
+				return newRegexNodeSet(NtSet, p.options, NotECMAWordClassIgnoreCase()), nil
+			}
 			return newRegexNodeSet(NtSet, p.options, NotECMAWordClass()), nil
 		}
 		return newRegexNodeSet(NtSet, p.options, NotWordClass()), nil
@@ -1783,7 +1786,7 @@ func (p *parser) scanCharSet(caseInsensitive, scanOnly bool) (*CharSet, error) {
 						inRange = false
 					}
 
-					cc.addWord(p.useOptionE() || p.useRE2(), ch == 'W')
+					cc.addWordIgnoreCase(p.useOptionE() || p.useRE2(), ch == 'W', caseInsensitive)
 				}
 				continue
 
